@@ -14,9 +14,9 @@ structure Fuel where
   /-- candidates `D` tried by `find_first_D_with_jacobi_symbol_neg_one` -/
   dSearch : Nat := 100000
   /-- iterations of the inner `while (factor == 1u)` loop of Pollard's rho, per parameter `t` -/
-  rhoSteps : Nat := 8000000
+  rhoSteps : Nat := 1000000
   /-- parameters `t` tried by the outer loop of Pollard's rho (C++ bound: `n / 2`) -/
-  rhoParams : Nat := 64
+  rhoParams : Nat := 4
   /-- iterations of `while (!is_prime(factor))` in `find_prime_factor` -/
   refine : Nat := 64
   /-- recursion depth of `PrimeFactorization<N>` -/
